@@ -107,24 +107,50 @@ Section LfudaBridge.
                  try (f_equal; try reflexivity; apply dcell_ext; proj; try reflexivity; try congruence; try lia).
   Ltac okeq := cbn [req]; first [ rec_eq | f_equal; rec_eq ].
 
+  (* ---- do_access ----
+     The proof does not follow the ORDER in which the source reads e.m_keyed_position->second, the use count, the
+     previous-of-end ..., nor how often it reads them (spelled out at every use, or read once into a local): all
+     these reads are of the unchanged index / multimap / list of the entry state, so each is a SEMANTIC fact that
+     is split when it is met, on whichever side it is met first, and remembered ([known] rewrites later
+     occurrences with it).  Both sides are then values, compared field by field. *)
+  (* rewrite with every fact of the form  x = <constructor ..>  recorded by a case split *)
+  Ltac known :=
+    repeat match goal with
+           | H : ?x = Some _ |- context [?x] => rewrite H
+           | H : ?x = None |- context [?x] => rewrite H
+           | H : ?x = Ok _ |- context [?x] => rewrite H
+           | H : ?x = UB _ |- context [?x] => rewrite H
+           | H : ?x = true |- context [?x] => rewrite H
+           | H : ?x = false |- context [?x] => rewrite H
+           end.
+  Ltac anorm0 := repeat progress (red1; cbn [it_node negb req]; known).
+  Ltac anorm N L := repeat progress (vnorm N L; cbn [it_node negb req]; known).
+  (* the next read of the entry state that stands in the goal (on either side) *)
+  Ltac sem_split :=
+    let E := fresh "Q" in
+    match goal with
+    | |- context [dc_keyed ?e] => is_var e; destruct (dc_keyed e) eqn:E
+    | |- context [assoc ?k (dl_index ?s)] => is_var k; is_var s; destruct (assoc k (dl_index s)) eqn:E
+    | |- context [mm_deref (dl_mm ?s) (dc_lfu ?e)] => is_var s; is_var e; destruct (mm_deref (dl_mm s) (dc_lfu e)) eqn:E
+    | |- context [mm_erase (dl_mm ?s) (dc_lfu ?e)] => is_var s; is_var e; destruct (mm_erase (dl_mm s) (dc_lfu e)) eqn:E
+    | |- context [l_prev (dl_list ?s) (dl_end ?s)] => is_var s; destruct (l_prev (dl_list s) (dl_end s)) eqn:E
+    | |- context [iter_eqb (It ?a) ?b] => is_var a; is_var b; destruct (iter_eqb (It a) b) eqn:E
+    | |- context [l_splice (dl_list ?s) (dl_end ?s) (It ?a)] => is_var s; is_var a; destruct (l_splice (dl_list s) (dl_end s) (It a)) eqn:E
+    end.
+
   Lemma g_do_access_ok (s : lfdl K V) (n : nat) now :
     mem_nat n (dl_list s) = true -> req (g_do_access s n now) (dl_access true s n now).
   Proof.
-    intros M. unfold g_do_access, dl_access, dcell_of. cbn [l_deref]. rewrite M. cbn [bind].
+    intros M. unfold g_do_access, dl_access, dcell_of, keyed_second, mit_second. cbn [l_deref]. rewrite M. cbn [bind].
     destruct (nth_error (dl_cells s) n) as [e|] eqn:N.
-    2:{ destruct (vget_none_ub _ "list node"%string _ _ N) as [u ->]. simpl. auto. }
+    2:{ (* the node has no cell: the first read through the element reference is undefined on both sides, whatever
+           reads of the entry state precede it *)
+        destruct (vget_none_ub _ "list node"%string _ _ N) as [u Hu].
+        anorm0. repeat (sem_split; anorm0). all: exact I. }
     assert (L : n < List.length (dl_cells s)) by (apply nth_error_Some; congruence).
-    vnorm N L.
-    destruct (mm_deref (dl_mm s) (dc_lfu e)) as [c|]; [|simpl; auto]. vnorm N L.
-    destruct (mm_erase (dl_mm s) (dc_lfu e)) as [m1|]; [|simpl; auto]. vnorm N L.
-    unfold keyed_second, mit_second. destruct (dc_keyed e) as [k|] eqn:Ek; [|simpl; auto].
-    destruct (assoc k (dl_index s)) as [kn|] eqn:A; [|simpl; auto]. cbn [it_node]. vnorm N L.
-    destruct (l_prev (dl_list s) (dl_end s)) as [last|]; [|simpl; auto]. vnorm N L.
-    rewrite Ek, A. vnorm N L.
-    destruct (iter_eqb (It kn) last); cbn [negb]; vnorm N L.
-    - okeq.
-    - destruct (l_splice (dl_list s) (dl_end s) (It kn)) as [l|]; [|simpl; auto]. vnorm N L.
-      okeq.
+    anorm N L.
+    repeat (sem_split; anorm N L).
+    all: first [ exact I | solve [okeq] ].
   Qed.
 
   Lemma g_do_erase_ok (s : lfdl K V) (n : nat) : req (g_do_erase s (It n)) (dl_do_erase s n).
